@@ -26,7 +26,7 @@ PLAN = dict(
         dict(name="fuzz-mice", fuzz="FuzzMiceDecode", fuzztime=60, timeout=(0, 300)),
         dict(name="fuzz-sh", fuzz="FuzzStructuredHeader", fuzztime=60, timeout=(0, 300)),
     ],
-    require=[("parsers", "family"), ("parsers", "accepted"), ("parsers", "rejected"), ("parsers", "target:bundle.Read"), ("parsers", "target:signedexchange.Verify"),
+    require=[("parsers", "family"), ("parsers", "plain-reader"), ("parsers", "accepted"), ("parsers", "rejected"), ("parsers", "target:bundle.Read"), ("parsers", "target:signedexchange.Verify"),
              ("parsers", "target:certurl.ReadCertChain"), ("parsers", "target:signature.NewVerifier"), ("parsers", "target:signature.verify-struct"), ("parsers", "target:mice.Decode03"),
              ("parsers", "target:cbor.Decoder"), ("parsers", "target:integrityblock.ObtainIntegrityBlock"), ("scaling", "origin:scale:tiny-entries")],
 )
